@@ -91,7 +91,7 @@ def cold_threads(spec, acc):
                 def work(t):
                     try:
                         for p_, items in order:
-                            barrier.wait(30)
+                            barrier.wait(600)
                             for k_ in range(len(items)):
                                 pl, nb, want = items[(k_ + t) % len(items)]
                                 kind, got = observe(decs[t], p_, pl, nb)
@@ -101,13 +101,15 @@ def cold_threads(spec, acc):
                                         continue
                                     if got != want and len(out["wrong"]) < 20:
                                         out["wrong"].append([p_, want, got, pl.to_bytes(nb, "little").hex(), t])
+                    except threading.BrokenBarrierError:
+                        out["inconclusive"] = "a thread did not reach the barrier in time (machine load)"
                     except Exception as e:  # noqa: BLE001
                         out["errors"].append(f"{type(e).__name__}: {e}")
                 ts = [threading.Thread(target=work, args=(t,)) for t in range(n_threads)]
                 for t_ in ts:
                     t_.start()
                 for t_ in ts:
-                    t_.join(120)
+                    t_.join(900)
                 # afterwards, single-threaded: whatever was set up during the race is what the process lives with
                 for p_, items in order:
                     for pl, nb, want in items:
@@ -134,6 +136,9 @@ def cold_threads(spec, acc):
             res = json.loads(b"".join(chunks).decode())
         except Exception:  # noqa: BLE001
             acc.inconclusive_because("cold-start worker returned nothing")
+            continue
+        if res.get("inconclusive"):
+            acc.inconclusive_because("cold-start worker: " + res["inconclusive"])
             continue
         total += res["n"]
         acc.count("cold_start_processes")
